@@ -21,6 +21,7 @@ type Case struct {
 	Variant     string   // immediate | buffered
 	FaultAt     int      // -1: none; else a non-EOF error is raised once FaultAt bytes were handed over
 	ErrWithData bool     // the read that reaches the end/fault returns (n>0, err) instead of a separate (0, err)
+	ErrKind     string   `json:",omitempty"` // which non-EOF error the fault is: "" plain | temporary | unexpected-eof | wrapped
 	LongStall   int      `json:",omitempty"` // a run of this many (0, nil) reads before the StallAt-th read that hands over data ("stalls" of any length are legal)
 	StallAt     int      `json:",omitempty"`
 	Obs         *pbt.Obs `json:"-"`
@@ -29,6 +30,30 @@ type Case struct {
 var churnTick int
 
 var errInjected = errors.New("injected read fault")
+
+// temporaryErr: an error that calls itself temporary (EAGAIN, EINTR and many network errors do); still a
+// non-EOF read error: reported once, ends the stream
+type temporaryErr struct{}
+
+func (temporaryErr) Error() string   { return "injected read fault (temporary)" }
+func (temporaryErr) Temporary() bool { return true }
+func (temporaryErr) Timeout() bool   { return false }
+
+var errKinds = []string{"", "", "temporary", "unexpected-eof", "wrapped"}
+
+// faultErr returns the error a faulting reader raises and a predicate recognising it in OnError.
+func faultErr(kind string) (error, func(error) bool) {
+	switch kind {
+	case "temporary":
+		return temporaryErr{}, func(e error) bool { _, ok := e.(temporaryErr); return ok || errors.As(e, new(temporaryErr)) }
+	case "unexpected-eof":
+		// what a real reader returns for a stream cut short (a truncated gzip member)
+		return io.ErrUnexpectedEOF, func(e error) bool { return errors.Is(e, io.ErrUnexpectedEOF) }
+	case "wrapped":
+		return fmt.Errorf("read /dev/fake: %w", errInjected), func(e error) bool { return errors.Is(e, errInjected) }
+	}
+	return errInjected, func(e error) bool { return errors.Is(e, errInjected) }
+}
 
 // chunkReader hands out Content according to the chunk plan.
 type chunkReader struct {
@@ -113,9 +138,10 @@ func check(c Case) error {
 	data := []byte(c.Content)
 	limit := len(data)
 	var ferr error = io.EOF
+	isFault := func(error) bool { return false }
 	if c.FaultAt >= 0 && c.FaultAt <= len(data) {
 		limit = c.FaultAt
-		ferr = errInjected
+		ferr, isFault = faultErr(c.ErrKind)
 	}
 	rd := &chunkReader{data: data, limit: limit, finalErr: ferr, chunks: c.Chunks, withData: c.ErrWithData, longStall: c.LongStall, stallAt: c.StallAt}
 
@@ -190,7 +216,7 @@ func check(c Case) error {
 		if len(errs) != 1 {
 			return fmt.Errorf("OnError called %d time(s) for one injected fault, want exactly 1", len(errs))
 		}
-		if !errors.Is(errs[0], errInjected) {
+		if !isFault(errs[0]) {
 			return fmt.Errorf("OnError got %v, want the injected error", errs[0])
 		}
 	}
@@ -215,6 +241,7 @@ func check(c Case) error {
 	}
 	o.Label(ferr != io.EOF, "fault")
 	o.Label(ferr != io.EOF && c.ErrWithData && limit > 0, "fault-with-n>0")
+	o.Label(ferr != io.EOF && c.ErrKind != "", "fault-kind:"+c.ErrKind)
 	o.Label(ferr == io.EOF && c.ErrWithData && limit > 0, "eof-with-n>0")
 	o.Label(limit > 0 && data[limit-1] != '\n', "unterminated-tail")
 	o.Label(bytes.Contains(data[:limit], []byte("\r\n")), "has-crlf")
@@ -283,6 +310,7 @@ func gen(t *rapid.T) Case {
 	}
 	if rapid.IntRange(0, 3).Draw(t, "fault") == 0 {
 		c.FaultAt = rapid.IntRange(0, len(c.Content)).Draw(t, "faultAt")
+		c.ErrKind = rapid.SampledFrom(errKinds).Draw(t, "errKind")
 	}
 	c.ErrWithData = rapid.Bool().Draw(t, "errWithData")
 	if rapid.IntRange(0, 11).Draw(t, "longStall") == 0 {
